@@ -72,6 +72,10 @@ Init == /\ r0 \in InitRoles
         /\ hist = <<>>
         /\ act = [name |-> "init"]
 
+\* graph mode sends the whole alphabet in every role at the chunk sizes 128, 1 and 2^32-1 while no message is
+\* unfinished, and this subset in the other combinations of chunk size and unfinished message
+Reduced == Control \cup Faults \cup Core \cup {Msg("cmd", "publish", "longstr"), Msg("agg", "noprev", ""), Msg("junk", "rnd", "64")}
+
 \* graph mode keeps the handshake part of the graph small: while the handshake is open only the
 \* handshake packets, junk and three ordinary messages are sent
 PreHs == Handshake \cup Junk \cup {Msg("cmd", "connect", "ok"), Msg("video", "key", ""), Msg("scs", "4096", "ok")}
@@ -80,6 +84,7 @@ Send(msg) ==
   LET n == NomLen(msg) IN
   /\ Depth = 0 \/ (Len(hist) < Depth /\ st.mode # "closed")
   /\ Depth = 0 => (st.hs > 0 => msg \in PreHs /\ (msg \notin Handshake => st.hs \in {HsLen, 1536}))
+  /\ Depth = 0 => (st.hs = 0 /\ st.mode = "sync" /\ ~(st.part = "no" /\ st.cs \in {"128", "1", "max32"}) => msg \in Reduced)
   /\ \E obs \in Outcomes(st, msg, n) :
        /\ st' = After(st, msg, n, obs)
        /\ act' = [name |-> "send", msg |-> msg, obs |-> obs]
